@@ -19,11 +19,12 @@ pub static PROP: Prop = Prop {
     fixed,
     replay: Some(replay),
     breadcrumb: false,
+    fuzz: &[Fuzz { target: "choice", choice: true, runs: 300000, max_len: 560 }],
 };
 
 fn budget(t: Tier) -> Budget {
     Budget {
-        cases: t.pick(300_000, 6_000_000),
+        cases: t.pick(3_000_000, 30_000_000),
         max_len: 140,
         shards: 16,
         dual_profile: false,
